@@ -372,9 +372,29 @@ def make_case(rng):
     p.dump_all(p.g)
     lines += p.lines
     expected += p.expected
+    # function-result names: a FUNCTION with a bare name (and a bare parameter) has the default type of its first letter;
+    # it can be called bare or with the matching suffix, and assigned inside under either spelling
+    fn_lines = []
+    if rng.random() < 0.5:
+        for base in rng.sample(["Fa", "Qn", "Tx", "Gv"], rng.choice([1, 2])):
+            q = p.deftab[base[0].upper()]
+            par = base[0] + "p"
+            call = mixcase(rng, base) + (q if rng.random() < 0.4 else "")
+            if q == "$":
+                lines.append('PRINT "f"; %s("p")' % call)
+                expected.append("fps")
+                rhs = '%s + "s"' % mixcase(rng, par)
+            else:
+                lines.append('PRINT "f"; %s(7)' % call)
+                expected.append("f" + (" 10 " if q in "%&" else " 9.75 "))
+                rhs = "%s + 11 / 4" % mixcase(rng, par)
+            fn_lines += ["FUNCTION %s (%s)" % (mixcase(rng, base), mixcase(rng, par) + (q if rng.random() < 0.3 else "")),
+                         "  %s%s = %s" % (mixcase(rng, base), q if rng.random() < 0.4 else "", rhs), "END FUNCTION"]
+            p.features.add("function_result_name_" + q)
     lines.append("END")
     for pl in proc_lines:
         lines += pl
+    lines += fn_lines
     reject = None
     if rng.random() < 0.25:
         # one illegal use, which the checker must reject
